@@ -54,6 +54,7 @@ Proof. unfold sgen. cbn. symmetry. apply asset_gen_0. Qed.
 Lemma scommit_iss a v : geq (commit v (gH a) 0) (scommit (mkSec a 0 v 0)).
 Proof. unfold scommit. cbn [s_value s_vbf]. now rewrite <- sgen_iss. Qed.
 
+Lemma nz_eqb v : 0 < v < qn -> (v =? 0) = false. Proof. intro H. apply Z.eqb_neq. lia. Qed.
 Lemma issuance_commits_ok i : iss_ok i ->
   exists dom com, issuance_commits i = OVal (dom, com)
     /\ Forall2 geq dom (map sgen (iss_secrets i)) /\ Forall2 geq com (map scommit (iss_secrets i)).
@@ -61,7 +62,8 @@ Proof.
   intros [A K]. unfold issuance_commits, iss_secrets. destruct (has_issuance i).
   2:{ exists [], []. repeat split; constructor. }
   destruct A as [->|(x & -> & X)], K as [->|(y & -> & Y)]; cbn [fold_left fst snd obind app map];
-    rewrite ?pedersen_unblinded_H by assumption; cbn [obind app].
+    rewrite ?(nz_eqb _ X), ?(nz_eqb _ Y); cbn [fold_left fst snd obind app map];
+    rewrite ?pedersen_unblinded_H by assumption; cbn [obind app]; rewrite ?(nz_eqb _ Y); rewrite ?pedersen_unblinded_H by assumption; cbn [obind app].
   - exists [], []. repeat split; constructor.
   - eexists _, _. split; [reflexivity|]. split; repeat constructor. + apply sgen_iss. + apply scommit_iss.
   - eexists _, _. split; [reflexivity|]. split; repeat constructor. + apply sgen_iss. + apply scommit_iss.
